@@ -1614,8 +1614,12 @@ func (r *Raft) InstallSnapshot(
 		r.logger.Fatalf("failed to discard log entries: error = %v", err)
 	}
 
-	// Update the configuration.
-	r.applyConfiguration(request.Configuration)
+	// Update the configuration. Whatever configuration was in force came from an entry of
+	// the log that has just been discarded, committed or not: the configuration of the
+	// snapshot replaces it unconditionally.
+	configuration := r.decodeConfiguration(request.Configuration)
+	r.nextConfiguration(&configuration)
+	r.committedConfiguration = &configuration
 
 	r.logger.Infof(
 		"snapshot installation completed successfully: lastIndex = %d, lastTerm = %d",
